@@ -6,7 +6,7 @@ data-implementation entry points it delegates to (`add_char_list_from`, `add_byt
 `add_symbol_from`, `add_number_from`, `start_list / add_to_list / end_list`, `get_*_item`).
 
 The left operand is the value, the right operand is a value whose TYPE is the target (a `Type` value names
-the target directly).  The model states what the code does at /repo 791e82d, quirks included:
+the target directly).  The model states what the code does at /repo 5455df2, quirks included:
 
 * ranges are stored with the end the cast treats as inclusive (`(2 .. 5) ~# (,)` has the items 2 … 6);
 * three arms are delegated wholesale to the data implementation and the two shipped implementations answer
@@ -20,8 +20,8 @@ the target directly).  The model states what the code does at /repo 791e82d, qui
 Not modelled (said where it happens): float → text (`showF` is a parameter: Rust's `f64` `Display` is in
 the trusted base and not reproduced by the driver), symbols that have a registered name (values carry the
 64-bit symbol only; the OP harness builds symbols by value, so neither store knows a name), custom data,
-SimpleGarnishData's counting loop once it has pushed more items than the range's length (only with float
-range ends; the real loop need not terminate), error classes beyond "the instruction fails".
+SimpleGarnishData's slice counting loops once they have pushed more items than the range's length (only with
+float range ends; the range → list loop itself is bounded since /repo 5455df2), error classes beyond "the instruction fails".
 -/
 import Garnish.Abs.Ops
 import Garnish.Model.SipHash
@@ -201,6 +201,9 @@ def basicSymPart (showF : F → Txt) : SymPart F → Txt
   | .sym s => str "[Symbol " ++ natDigits s ++ [93]    -- no registered name
   | .num n => showNumber showF n
 
+/-- parentheses below the top level -/
+def basicParen (d : Nat) (t : Txt) : Txt := if d > 0 then [40] ++ t ++ [41] else t
+
 mutual
 def basicText (showF : F → Txt) (d : Nat) : Val F → Txt
   | .unit => [40, 41]
@@ -226,8 +229,6 @@ def basicText (showF : F → Txt) (d : Nat) : Val F → Txt
 def basicTexts (showF : F → Txt) (d : Nat) : List (Val F) → List Txt
   | [] => []
   | x :: xs => basicText showF d x :: basicTexts showF d xs
-/-- parentheses below the top level -/
-def basicParen (d : Nat) (t : Txt) : Txt := if d > 0 then [40] ++ t ++ [41] else t
 end
 
 /-- the text the data implementation produces for a value -/
@@ -257,7 +258,10 @@ def symbolFrom (env : CastEnv F) (v : Val F) : OpOut F :=
 
 /-- `add_byte_list_from`.  Simple: only unit has a byte list (the empty one), everything else is a data
 error.  Basic: computes the bytes, writes a byte list, and returns the address it was GIVEN: the result of
-the cast is the operand itself. -/
+the cast is the operand itself.  (While computing the bytes, conversions/bytes.rs reads the cells of a byte
+list / text / symbol list at heap-absolute instead of block-relative positions; for a non-empty byte list
+nested in a list this usually hits a cell that is not a byte and the cast fails with a data error — that
+depends on the heap layout, is not modelled, and is excluded from the comparison.) -/
 def byteListFrom (env : CastEnv F) (v : Val F) : OpOut F :=
   match env.store with
   | .simple => match v with
@@ -306,8 +310,18 @@ def buildList (st : StoreKind) (declared : Nat) (items : List (Val F)) : OpOut F
   | .simple => .val (.list items)
   | .basic => if items.length = declared then .val (.list items) else .err .data
 
-/-- the loop pushed as many items as the range's length announces and would go on: Basic refuses the next
-item; Simple goes on pushing, possibly for ever (floats that absorb the increment) — not modelled -/
+/-- how many items the counting loop is followed for.  Basic: one more than the announced length — the next
+`add_to_list` fails, whatever the loop would do.  Simple: one more than the range's length `n`; with integer
+ends the loop stops by itself after exactly `n` items (`Lemmas.countLoop_int`), with float ends it may push one
+more (`0 .. 1.5` over a text visits 0, 1, 2) -/
+def loopFuel (st : StoreKind) (n declared : Nat) : Nat :=
+  match st with
+  | .simple => n + 1
+  | .basic => declared + 1
+
+/-- the loop condition still holds after `loopFuel` items.  Basic: the item beyond the announced length is
+refused (data error).  Simple: the real loop goes on, possibly for ever (a float that absorbs the increment)
+— NOT modelled, reported as a defect; `err other` stands for "no statement" -/
 def overrun (st : StoreKind) : OpOut F :=
   match st with
   | .basic => .err .data
@@ -363,23 +377,44 @@ def concatWindow (s e : Number F) : List (Val F) → Nat → List (Val F)
     else if numLt fo e (.int k) then []
     else x :: concatWindow s e xs (k + 1)
 
-/-- `(Range, List)`: `get_range`, the announced length `max 0 (end - start + 1)`, the counting loop -/
+/-- the `(Range, List)` loop after /repo 5455df2: `while added < len && count <= end`, `count` incremented only
+BETWEEN items — at most `len` items, no increment after the last one (a range whose stored end is i32::MAX
+is fine, an absorbed float increment cannot keep the loop going) -/
+def rangeItems : Nat → Number F → Number F → Except ErrClass (List (Number F))
+  | 0, _, _ => .ok []
+  | 1, c, e => .ok (if numLe fo c e then [c] else [])
+  | n + 2, c, e =>
+    if numLe fo c e then
+      match Number.increment fo c with
+      | some c' =>
+        match rangeItems (n + 1) c' e with
+        | .ok xs => .ok (c :: xs)
+        | .error err => .error err
+      | none => .error .number
+    else .ok []
+
+/-- `(Range, List)`: `get_range`, the announced length `len = max 0 (end - start + 1)` (floats truncate), at most
+`len` items.  With integer ends exactly `len` items are pushed (`Lemmas.rangeItems_int`) and the two data
+implementations agree; with float ends the loop can stop early (`count <= end` fails first), which Simple
+accepts and Basic refuses (`buildList`).  (`numToSize` saturates at i32::MAX where Rust's `as usize` goes on to
+2^64: lists that long cannot be allocated — finding F-C07-range-cast-unbounded.) -/
 def rangeToList (st : StoreKind) (s e : Val F) : OpOut F :=
   match s, e with
   | .num s, .num e =>
     match rangeLen fo s e with
     | none => .err .number
     | some len =>
-      match countLoop fo false (numToSize fo len) s e with
+      let n := numToSize fo len
+      match rangeItems fo n s e with
       | .error err => .err err
-      | .ok (xs, more) => if more then overrun st else buildList st (numToSize fo len) (xs.map .num)
+      | .ok xs => buildList st n (xs.map .num)
   | _, _ => .err .state
 
 /-- index loop over a sequence slice: the indices `start, start+1, …` the loop visits, each mapped by `get`,
 announced length `declared` -/
-def sliceLoop (st : StoreKind) (strict : Bool) (fuel declared : Nat) (s e : Number F)
+def sliceLoop (st : StoreKind) (strict : Bool) (n declared : Nat) (s e : Number F)
     (get : Number F → Except ErrClass (Val F)) : OpOut F :=
-  match countLoop fo strict fuel s e with
+  match countLoop fo strict (loopFuel st n declared) s e with
   | .error err => .err err
   | .ok (idx, more) =>
     if more then overrun st else
